@@ -45,7 +45,12 @@ def run(tier):
     _d_crossing(chk)
     _d_refinement(chk)
     _bc_interface(chk)
+    _b_gather(chk)
     _c_service_section(chk)
+    # a cached map is the one for the requested section and options
+    from . import c20
+    from .common import Relabel
+    c20._b_key_params(Relabel(chk, {"C20.b": "C14.c-cache"}), [x for x in c20._sites() if x.mod.name.endswith("services.maps") and x.cls.name.startswith("_CenterManifold")])
     return chk
 
 
@@ -184,6 +189,39 @@ def _a_engine(chk):
     ok = bool(lifts_seen) and all(kw.get("h0") == sp.Symbol("h0") and kw.get("section_coord") == "q3" for kw in lifts_seen)
     chk.check(ok, "C14.e", f"{CE}::_CenterManifoldEngine.solve[seed lift]", f"seeds are not lifted with lift_plane_point on the problem's energy and section coordinate: {lifts_seen[:1]}",
               sample="lift_plane_point(p, section_coord=problem.section_coord, h0=problem.energy, ...) for every seed")
+
+
+def _b_gather(chk):
+    """_CenterManifoldBackend.run hands back exactly the seeds whose crossing was found (flag set), each state row paired with
+    its own time, in seed order; a seed without a crossing contributes no row (not a row of zeros that is fed back)."""
+    bmod, bcls = ri.find_def(CB, "_CenterManifoldBackend")
+    n = 4
+    flags = to_obj_array([sp.Integer(1), sp.Integer(0), sp.Integer(1), sp.Integer(1)])
+    cols = {nm: to_obj_array([sp.Symbol(f"{nm}{i}") for i in range(n)]) for nm in ("q2p", "p2p", "q3p", "p3p", "t")}
+    seen = {}
+
+    def pmap(ip_, a, k):
+        seen["args"] = a
+        return (flags, cols["q2p"], cols["p2p"], cols["q3p"], cols["p3p"], cols["t"])
+
+    req = SymObj(None, {"seeds": to_obj_array([[sp.Symbol(f"s{i}_{k}") for k in range(4)] for i in range(n)]), "dt": sp.Symbol("DT"), "jac_H": sp.Symbol("JAC"),
+                        "clmo_table": sp.Symbol("CLMO"), "order": 4, "max_steps": 7, "method": "fixed", "section_coord": "q3", "c_omega_heuristic": 20}, "request")
+    ip = Interp(overrides={"_poincare_map": pmap, "CenterManifoldBackendResponse": lambda ip_, a, k: SymObj(None, dict(k), "resp")},
+                np_overrides={"ascontiguousarray": lambda ip_, a, k: a[0]})
+    be = SymObj(ClassRef(bmod, bcls), {}, "backend")
+    try:
+        resp = ip.apply(ip.getattr(be, "run"), [req], {})
+    except OutsideFragment as exc:
+        raise AnalysisError(f"_CenterManifoldBackend.run outside fragment: {exc}")
+    st = to_obj_array(resp.attrs["states"])
+    tm = to_obj_array(resp.attrs["times"])
+    keep = [i for i in range(n) if flags[i] != 0]
+    want = [[cols[c][i] for c in ("q2p", "p2p", "q3p", "p3p")] for i in keep]
+    got = [list(st[r]) for r in range(st.shape[0])] if st.ndim == 2 else []
+    chk.check(got == want and list(tm) == [cols["t"][i] for i in keep], "C14.b", f"{CB}::_CenterManifoldBackend.run[gather]",
+              f"the response does not contain exactly the flagged seeds' (state, time) pairs in seed order: states {got}, times {list(tm)} for flags {list(flags)}",
+              sample="flags [1,0,1,1] -> rows 0,2,3 with their own times")
+    chk.count("functions partially evaluated")
 
 
 def _c_service_section(chk):
